@@ -213,6 +213,9 @@ def run(rep: Report, tier: str) -> None:
     rep.rule("R33.5", "viral propagation: aggregate-function rules over a group use the order-independent aggregate, not a fold over list(col)")
     from sa.checks.c28 import group_forms_by_rule_kind
     group_forms_by_rule_kind(P, rep, "R33.5")
+    rep.rule("R33.6", "viral propagation: a two-value clause matches the two values in either order (the pair form generated and evaluated for every ordered pair)")
+    from sa.checks.c28 import enumerated_pairs
+    enumerated_pairs(P, rep, "R33.6")
 
     # ---- R33.3 -----------------------------------------------------------------------------------------------
     nfun = 0
